@@ -3,6 +3,7 @@ package props
 import (
 	"fmt"
 	"go/ast"
+	"go/token"
 	"go/types"
 	"sort"
 	"strings"
@@ -417,6 +418,14 @@ func c07(c *core.Check) {
 
 	r6 := c.Rule("R6", "the guard the path interpreter's indexed reads rest on: hasSetsOrMore(sz, …) returns true only for a list of at least sz numbers made of whole groups of sz (decided by path-condition reachability of its `return true` under three refusing scenarios)", 3)
 	groupGuardRule(c, r6)
+	c07GridAreas(c)
+	r7 := c.Rule("R7", "svg.Parse cannot recurse forever on href references between definitions: inheritElement destroys the reference before following it", 1)
+	if ie := p.Lookup("svg.(*svgContext).inheritElement"); ie == nil {
+		r7.Anchor("svg.(*svgContext).inheritElement")
+	} else {
+		ok, why := core.DeleteBeforeRecursion(p, ie, "href")
+		r7.Cond(ok, "svg.(*svgContext).inheritElement | inheritElement(parent)", p.Pos(ie.Pos()), why, why+": two gradients referencing each other through href recurse until the stack is exhausted while the document is parsed")
+	}
 }
 
 // compositeLen: number of elements of a composite literal table value (looking through a conversion call).
@@ -529,4 +538,94 @@ func c07Dispatch(c *core.Check, r *core.Rule, eng *core.BoundsEngine) {
 		}
 	}
 	r.Cond(lookupAtom != nil, "validateNonShorthand tests allValidators before dispatching", p.Pos(vns.Pos()), "membership test present", "properties without a validator would reach ValidateKnown and get a nil value")
+}
+
+// c07GridAreas: the rectangle scan of grid-template-areas slices a later row with bounds taken from an earlier one.
+func c07GridAreas(c *core.Check) {
+	p := c.Prog
+	r := c.Rule("R8", "grid-template-areas: the scan that slices a later row with the bounds of an area found in an earlier row (`nrow[x:nx]`) is reached only when every row was compared for equality of length with the first one and a difference returned early — an inequality in one direction lets a shorter row through and the slice leaves it", 1)
+	fn := p.Fn("css/validation", "gridTemplateAreas")
+	if fn == nil {
+		r.Anchor("css/validation.gridTemplateAreas")
+		return
+	}
+	isLen := func(v ssa.Value) bool {
+		call, ok := v.(*ssa.Call)
+		if !ok {
+			return false
+		}
+		b, isB := call.Call.Value.(*ssa.Builtin)
+		return isB && b.Name() == "len"
+	}
+	// the slices of a row with two variable bounds
+	var scans []*ssa.Slice
+	core.Instrs(fn, func(in ssa.Instruction) {
+		if sl, ok := in.(*ssa.Slice); ok && sl.Low != nil && sl.High != nil {
+			if _, isK := sl.Low.(*ssa.Const); isK {
+				return
+			}
+			if st, ok := sl.X.Type().Underlying().(*types.Slice); ok {
+				if bt, ok := st.Elem().Underlying().(*types.Basic); ok && bt.Kind() == types.String {
+					scans = append(scans, sl)
+				}
+			}
+		}
+	})
+	if len(scans) == 0 {
+		r.Anchor("gridTemplateAreas: slice of a row with variable bounds")
+		return
+	}
+	// the equality tests between two lengths
+	var eqs []*ssa.BinOp
+	for _, a := range core.CondAtoms(fn) {
+		b, ok := a.(*ssa.BinOp)
+		if ok && (b.Op == token.EQL || b.Op == token.NEQ) && isLen(b.X) && (isLen(b.Y) || isLenDerived(b.Y)) {
+			eqs = append(eqs, b)
+		}
+	}
+	for _, sl := range scans {
+		key := "css/validation.gridTemplateAreas | " + "row[x:nx]"
+		guarded := false
+		for _, e := range eqs {
+			// when the lengths differ the function returns at once, and this happens in a loop over the rows that
+			// is completed before the scan starts
+			var ifi *ssa.If
+			if refs := e.Referrers(); refs != nil {
+				for _, ref := range *refs {
+					if x, ok := ref.(*ssa.If); ok {
+						ifi = x
+					}
+				}
+			}
+			if ifi == nil {
+				continue
+			}
+			differs := ifi.Block().Succs[0]
+			if e.Op == token.EQL {
+				differs = ifi.Block().Succs[1]
+			}
+			returns := false
+			if len(differs.Instrs) > 0 {
+				_, returns = differs.Instrs[len(differs.Instrs)-1].(*ssa.Return)
+			}
+			l := core.InnermostLoop(fn, ifi.Block())
+			if returns && l != nil && !l.Blocks[sl.Block()] && l.Header.Dominates(sl.Block()) {
+				guarded = true
+			}
+		}
+		r.Cond(guarded, key, p.Pos(sl.Pos()), "unreachable when a row's length differs from the first row's", "no test of equality between the length of a row and the length of the first row keeps control away from this slice: `\"a\" \"b b\" \"b\"` slices a one-element row with [0:2]")
+	}
+}
+
+func isLenDerived(v ssa.Value) bool {
+	if phi, ok := v.(*ssa.Phi); ok {
+		for _, e := range phi.Edges {
+			if call, ok := e.(*ssa.Call); ok {
+				if b, isB := call.Call.Value.(*ssa.Builtin); isB && b.Name() == "len" {
+					return true
+				}
+			}
+		}
+	}
+	return false
 }
